@@ -25,7 +25,8 @@ LEVEL = 'proof'
 RULE = ('operation sequences over all public operations of DataFieldRecordArray (constructor from dict with '
         'keep/conversions/copy, copy, get_selection, set_selection, append, append_field, __setitem__, '
         'remove_field, rename_fields, tidy_up, sort_by_field, convert_dtypes, set_field_dtype, indices), '
-        'bounded-exhaustive over a fixed alphabet up to length 4 (quick) / 5 and 6 (thorough, failed steps '
+        'bounded-exhaustive over a fixed alphabet of 14 state-dependent letters: all words of length 4 over 8 letters '
+        '(quick) / length 4 over 14, length 5 over 8 and length 6 over 6 letters (thorough, words continuing after a failed step '
         'pruned), random up to length 40 on tables with 0..50 rows and 1..5 fields of dtypes '
         'int16/int32/int64/float64, plus a malformed stream (missing fields, wrong lengths, indices out of '
         'range, colliding renames); a case is one whole sequence, distinct by hash of its operations')
@@ -744,14 +745,31 @@ def evaluate(ctx, tag, seqs):
     if not ctx.model_ok:
         ctx.notes.append('model did not build: implementation-only predicates were evaluated')
         return
-    exprs = [g_seq(ops) for ops, _ in seqs]
+    import concurrent.futures
+    # chunks of bounded total size, evaluated in parallel (one coqc per chunk)
+    chunks, cur, size = [], [], 0
+    for sq in seqs:
+        e = g_seq(sq[0])
+        w = len(e) * max(1, len(sq[0]))          # output grows with sequence length * state size
+        if cur and (size + w > 400000 or len(cur) >= 400):
+            chunks.append(cur)
+            cur, size = [], 0
+        cur.append((sq, e))
+        size += w
+    if cur:
+        chunks.append(cur)
+
+    def one(ci):
+        return common.coq_eval(f'{tag}_{ci}', IMPORTS, [e for _, e in chunks[ci]], timeout=1200)
     try:
-        vals = common.coq_eval(tag, IMPORTS, exprs, timeout=1200)
+        with concurrent.futures.ThreadPoolExecutor(max_workers=6) as ex:
+            res = list(ex.map(one, range(len(chunks))))
     except RuntimeError as ex:
         ctx.broken.append({'kind': 'model-eval', 'error': str(ex)[:1500]})
         return
-    for (ops, trace), v in zip(seqs, vals):
-        compare_sequence(ctx, ops, trace, v)
+    for ch, vals in zip(chunks, res):
+        for ((ops, trace), _), v in zip(ch, vals):
+            compare_sequence(ctx, ops, trace, v)
 
 
 def run(ctx):
@@ -765,12 +783,13 @@ def run(ctx):
     base = ['append01', 'addcol', 'remove0', 'rename13', 'select', 'setsel0L', 'sort', 'copy', 'indices', 'setselL0']
     if ctx.thorough():
         seqs += exhaustive(ctx, DFRA, base + ['tidy', 'convert', 'append10', 'setitem1'], 4, False)
-        seqs += exhaustive(ctx, DFRA, base, 5, True)
-        seqs += exhaustive(ctx, DFRA, ['append01', 'addcol', 'rename13', 'select', 'setsel0L', 'sort', 'indices'], 6, True)
+        seqs += exhaustive(ctx, DFRA, ['append01', 'addcol', 'remove0', 'rename13', 'select', 'setsel0L', 'sort', 'copy'], 5, True)
+        seqs += exhaustive(ctx, DFRA, ['append01', 'rename13', 'select', 'setsel0L', 'sort', 'indices'], 6, True)
     else:
-        seqs += exhaustive(ctx, DFRA, base, 4, False)
+        seqs += exhaustive(ctx, DFRA, ['append01', 'addcol', 'remove0', 'rename13', 'select', 'setsel0L', 'sort', 'copy'], 4, False)
+        seqs += exhaustive(ctx, DFRA, base + ['tidy', 'convert', 'append10', 'setitem1'], 2, False)
     # random
-    nrand = ctx.budget(150, 1500)
+    nrand = ctx.budget(120, 1200)
     for k in range(nrand):
         maxlen = rng.choice([3, 6, 10, 20, 40, 40])
         mp = rng.choice([0.0, 0.05, 0.15, 0.4])
